@@ -165,7 +165,12 @@ type Shape struct {
 	InR    float64 // a disc of this radius around (Cx,Cy) is inside the shell (ignoring holes)
 	OutR   float64 // everything lies within this radius of the centre
 	Kind   string
+	Holes  []Disc // a disc strictly inside each hole, and one containing it
 }
+
+// Disc describes a hole: (X,Y) centre, In = radius of a disc inside the hole,
+// Out = radius of a disc containing the hole.
+type Disc struct{ X, Y, In, Out float64 }
 
 // StarPolygon builds a valid polygon: a star shell with nholes star holes
 // placed in disjoint discs inside the shell's inscribed disc.
@@ -179,8 +184,9 @@ func StarPolygon(r *R, cx, cy, rad float64, nverts, nholes int, snap float64) Sh
 			a := phase + 2*math.Pi*float64(k)/3
 			hx, hy := cx+0.5*inr*math.Cos(a), cy+0.5*inr*math.Sin(a)
 			hr := 0.28 * inr
-			hole, _ := Star(r, hx, hy, hr*0.4, hr, r.IntRange(3, 8), snap)
+			hole, hin := Star(r, hx, hy, hr*0.4, hr, r.IntRange(3, 8), snap)
 			pg = append(pg, RespellRandom(r, hole))
+			sh.Holes = append(sh.Holes, Disc{X: hx, Y: hy, In: hin, Out: hr})
 		}
 		if nholes > 3 {
 			nholes = 3
